@@ -362,3 +362,36 @@ Proof.
   assert (L3 : length s = 3) by (vm_compute; reflexivity). rewrite L3 in La.
   destruct a as [|[|[|a]]]; [apply Reach_refl; rewrite L3; lia | exact R01 | exact R02 | lia].
 Qed.
+
+(* ---- the mutant collect_nohash (a collect that flags the nodes it reports
+   without computing their hashes) breaks (I4) "collected => cached hash", on
+   which invalidate_hash's early exit relies: a = 0 -> b = 1, collect a FIRST
+   (no hash was ever read), attach c = 2 under b, collect a again.  The code
+   reports a, b and c the second time; the mutant reports c only: the new
+   hashes of b and a are never reported. *)
+Definition h_pair : list op := [ONew KNode kx; ONew KNode ky; ONew KNode kr; OSet 0 nb 1].
+
+Lemma collect_nohash_refuted :
+  exists NH h, guarded NH true false [] h /\
+    let s := final NH true false [] h in
+    (* the code *)
+    (let s1 := fst (step NH true false s (OCollect 0)) in
+     let s2 := fst (step NH true false s1 (OSet 1 nc 2)) in
+     (forall x, nth_error s1 0 = Some x -> collected x = true -> hashed x = true) /\
+     exists L, snd (step NH true false s2 (OCollect 0)) = OutNodes L /\ In 0 L /\ In 1 L /\ In 2 L) /\
+    (* the mutant *)
+    exists s1 L1 s3 L, collect_nohash (S (length s)) 0 s = Ok (s1, L1) /\
+      (exists x, nth_error s1 0 = Some x /\ collected x = true /\ hashed x = false) /\
+      collect_nohash (S (length s1)) 0 (fst (step NH true false s1 (OSet 1 nc 2))) = Ok (s3, L) /\
+      ~ In 0 L /\ ~ In 1 L.
+Proof.
+  exists NH0, h_pair.
+  split; [apply (guarded_b_sound NH0 true false [[]; [1; 0; 0]]); vm_compute; reflexivity|].
+  intro s. split.
+  - split.
+    + intros x E C. vm_compute in E. inversion E; subst. reflexivity.
+    + eexists. split; [vm_compute; reflexivity|]. vm_compute. auto 6.
+  - eexists. eexists. eexists. eexists. split; [vm_compute; reflexivity|]. split.
+    + eexists. split; [vm_compute; reflexivity|]. split; reflexivity.
+    + split; [vm_compute; reflexivity|]. split; vm_compute; intros [H|[]]; discriminate.
+Qed.
